@@ -603,11 +603,19 @@ def complex_cases(draw):
 
 @st.composite
 def sp_trees(draw):
-    leaf = st.integers(1, 64).map(lambda p: ["r", p, 4])
-    tree = draw(st.recursive(
-        leaf, lambda ch: st.tuples(st.sampled_from(["s", "p"]), ch, ch).map(
-            list), max_leaves=8))
-    return {"tree": tree, "perm": draw(st.permutations(list(range(12))))}
+    leaves = draw(st.integers(1, 8))
+    shape = draw(st.sampled_from(["mixed", "mixed", "series", "parallel"]))
+
+    def mk(k):
+        if k == 1:
+            return ["r", draw(st.integers(1, 64)), 4]
+        j = draw(st.integers(1, k - 1))
+        kind = {"series": "s", "parallel": "p"}.get(shape) or \
+            draw(st.sampled_from(["s", "p"]))
+        return [kind, mk(j), mk(k - j)]
+
+    return {"tree": mk(leaves),
+            "perm": draw(st.permutations(list(range(12))))}
 
 
 @st.composite
